@@ -13,7 +13,7 @@ from .edl import AND, C, OR, P, X, activation, block, engine, rule
 HEDGES = ["not", "very", "extremely"]          # rational hedges (somewhat / seldom need square roots)
 TNORMS = ["Minimum", "AlgebraicProduct", "BoundedDifference", "DrasticProduct", "NilpotentMinimum"]
 SNORMS = ["Maximum", "AlgebraicSum", "BoundedSum", "DrasticSum", "NilpotentMaximum", "UnboundedSum"]
-WEIGHTS = ["1", "1", "1/2", "1/4", "3/4"]
+WEIGHTS = ["1", "1", "1/2", "1/4", "3/4", "1023/1024"]
 
 
 def prop(rng, var):
